@@ -162,8 +162,6 @@ func c14dhtRun(t *testing.T, r *vfRand, c *c14dhtCase, lc *lkCase, w *wWorld, tr
 		return i
 	}
 	if err != nil {
-		plan.Close = func() error { return nil }
-		plan.CloseAt = 0
 		plan.Run(tr)
 		note := "ctor error: " + err.Error()
 		if n := h.EvBus.Open(); n != 0 {
